@@ -13,7 +13,10 @@ from pathlib import Path
 import numpy as np
 
 import drvlib as D
+from incomplete_cooperative.__main__ import get_argument_parser
+from incomplete_cooperative.__main__ import main as cli_main
 from incomplete_cooperative.evaluation import eval_one, evaluate
+from incomplete_cooperative.run.save import Output
 from incomplete_cooperative.run.model import ModelInstance
 from incomplete_cooperative.solvers import SOLVERS
 
@@ -92,18 +95,33 @@ def main():
             repetitions = reps_choices[ci % len(reps_choices)]
             seed = a.seed * 1000 + ci * 17 + n
             first = None
-            for p in procs + ([0] if ci % 2 == 0 else []):          # p = 0: eval_one called directly, repetition by repetition
+            # p = 0: eval_one called directly, repetition by repetition; p < 0: the `solve` COMMAND (argument parser -> ModelInstance ->
+            # solve_func -> save -> data.json read back) with -p worker processes, compared with the direct evaluate() of the same seed
+            cli = [] if ci % 2 == 0 else ([-1] if solver_name == "random" else [-1, -2])
+            first_hid = None
+            for p in procs + ([0] if ci % 2 == 0 else []) + cli:
                 tid += 1
                 comp, r = COMP[cls]
                 mode = "exact" if gen in ("factory", "factory_square") else "quant"
                 t = {"tid": tid, "n": n, "mode": mode, "comp": comp, "r": r, "gap": gap, "steps": steps, "repetitions": repetitions, "p": p,
-                     "solver": solver_name, "generator": gen, "seed": seed, "continuous": int(gen in CONTINUOUS), "exc": "", "reps": [], "same_p1": -1, "games_same_p1": -1}
+                     "solver": solver_name, "generator": gen, "seed": seed, "continuous": int(gen in CONTINUOUS), "exc": "", "reps": [], "same_p1": -1, "games_same_p1": -1,
+                     "via": "cli" if p < 0 else "api"}
                 log = logdir / f"t{tid}.jsonl"
                 try:
                     inst = ModelInstance(number_of_players=n, game_class=cls, game_generator=gen, gap_function=gap, run_steps_limit=steps,
                                          seed=seed, parallel_environments=p)
                     solver = SOLVERS[solver_name](inst)
-                    if p == 0:
+                    if p < 0:
+                        mdir = logdir / f"cli{tid}"
+                        cli_main(get_argument_parser(), ["prog", "--number-of-players", str(n), "--game-class", cls, "--game-generator", gen,
+                                                         "--gap-function", gap, "--run-steps-limit", str(steps), "--seed", str(seed),
+                                                         "--parallel-environments", str(-p), "--model-dir", str(mdir), "--unique-name", f"run{tid}",
+                                                         "solve", "--solver", solver_name, "--solve-repetitions", str(repetitions)])
+                        out = Output.from_file(mdir / "data.json", f"run{tid}")
+                        expl, acts = np.array(out.data, dtype=np.float64), np.array(out.actions)
+                        if expl.shape != (steps + 1, repetitions) or acts.shape != (steps, repetitions):
+                            raise ValueError("shape of the saved matrices")
+                    elif p == 0:
                         gen_envs = TaggedEnvs(inst)
                         rec = Recorder(str(log), solver.after_reset)
                         cols = [eval_one(solver.next_step, gen_envs(), steps, inst.gap_function_callable, rec) for _ in range(repetitions)]
@@ -126,6 +144,8 @@ def main():
                         while taken < steps and col_a[taken] != 0:
                             taken += 1
                         rr = recs.get(j, [])
+                        if p < 0 and first_hid is not None and j < len(first_hid):      # the command offers no hook: the games of the direct run
+                            rr = [{"hid": list(first_hid[j])}]
                         rep = {"has_hid": int(len(rr) == 1), "hid": [], "hid_tok": -1 - j, "taken": taken, "actions": col_a, "gaps": []}
                         if len(rr) == 1:
                             hid = [float.fromhex(x) for x in rr[0]["hid"]]
@@ -140,11 +160,16 @@ def main():
                             rep["gaps"] = [gap_iv(g, n, gap, mode, scale, grid, M) for g in col_g]
                             sig.append((tuple(rr[0]["hid"]), tuple(x.hex() for x in col_g), tuple(col_a)))
                         t["reps"].append(rep)
-                    if p == 0:
+                    if p < 0:
+                        t["p"] = -p
+                        t["games_same_p1"] = -1
+                        t["same_p1"] = int(first is not None and [x[1:] for x in sig] == [x[1:] for x in first])
+                    elif p == 0:
                         t["same_p1"], t["games_same_p1"] = -1, -1       # a different call path: not compared with evaluate()
                     else:
                         if first is None:
                             first = sig
+                            first_hid = [x[0] for x in sig]
                         t["same_p1"] = int(sig == first)
                         t["games_same_p1"] = int([x[0] for x in sig] == [x[0] for x in first])
                 except D.DriverError:
